@@ -164,6 +164,20 @@ PROPS = {
                       "framing headers (Host, Content-Length, Transfer-Encoding) are rebuilt by the libraries and not compared"] + LIB,
         assumptions=["header names compare in canonical MIME spelling; order among header fields is not part of the report"],
     ),
+    "C04": dict(
+        proof_modules=["KsVerif.Proofs.C04"],
+        families=["http2.conv"],
+        rule="http2.conv: abstract frame scripts encoded with x/net/http2's Framer and one HPACK encoder per half (client "
+             "preface, SETTINGS): 1-4 streams whose HEADERS (split over 0-2 CONTINUATION frames), DATA and trailer frames "
+             "interleave in a random order-preserving merge, HPACK dynamic-table reuse across requests, gRPC and plain "
+             "streams incl. the marker on one direction only, bodies of 0-70000 bytes (around 1 MiB: 2^20-1, 2^20, 2^20+1, "
+             "3*2^20 in the thorough tier), SETTINGS ack / PING / WINDOW_UPDATE / PRIORITY / RST_STREAM in between, streams "
+             "left incomplete; the reported (HAR) form of each item is observed; non-trivial = both halves non-empty",
+        trusted_base=["golang.org/x/net/http2 framing and HPACK (encoder in the harness, decoder in the dissector): library, "
+                      "neither modelled nor verified", "Http/H2.lean: the assembler and pairing on decoded frames; "
+                      "Content-Length rebuilt by the HAR conversion is not compared"] + LIB,
+        assumptions=["h2c upgrade path not generated yet"],
+    ),
     "C05": dict(
         proof_modules=["KsVerif.Proofs.C05"],
         families=["amqp.conv"],
